@@ -1,0 +1,12 @@
+//go:build verif
+
+// Contracts for package shmsg, checked by /verif/govc (C10: decoding a transaction never panics).
+// Comments only.
+package shmsg
+
+//@ // the signature is only taken off a message that is long enough; callers may rely on that
+//@ func GetSigner
+//@   ensures ret1 == nil ==> len(signedMessage) >= 65
+//@ func GetMessage
+//@   requires len(signedMessage) >= 65
+//@   ensures ret1 == nil ==> ret0 != nil
